@@ -189,9 +189,10 @@ def run(case):
     # ---- mean / std over a list of independent trajectories (different volume, time step and temperature)
     from gemdat.metrics import TrajectoryMetricsStd as _Std
 
-    reps = [(M, dt, temp), (M * k, dt, temp + 50.0), (M, dt * s, temp)]
-    rt = [cases.trajectory(path - np.floor(path), sym, m_, d_, t_, case['species_kind']) for m_, d_, t_ in reps]
-    own = [own_metrics(path, m_, sym, d_, t_, z, dims) for m_, d_, t_ in reps]
+    # (the trajectories of such a list need not have the same number of frames: two of them are shorter runs)
+    reps = [(M, dt, temp, T), (M * k, dt, temp + 50.0, T), (M, dt * s, temp, T)] + ([(M, dt, temp, T - 1), (M * k, dt, temp, T - 2)] if T >= 6 else [])
+    rt = [cases.trajectory((path - np.floor(path))[:n_], sym, m_, d_, t_, case['species_kind']) for m_, d_, t_, n_ in reps]
+    own = [own_metrics(path[:n_], m_, sym, d_, t_, z, dims) for m_, d_, t_, n_ in reps]
     sr = _Std(rt)
     for name, fn, key in [('tracer_diffusivity', lambda: sr.tracer_diffusivity(dimensions=dims), 'tracer_diffusivity'), ('tracer_conductivity', lambda: sr.tracer_conductivity(z_ion=z, dimensions=dims), 'tracer_conductivity')]:
         u = gcall(fn)
